@@ -152,6 +152,7 @@ type Sim struct {
 	OnFault                   bool
 	runBuf                    [maxTasks]*Task
 	jumpPos                   int
+	GoPanic                   string
 }
 
 // S is the active simulation (nil: calm mode, library code runs unscheduled).
@@ -420,12 +421,27 @@ func (t *Task) body(s *Sim) {
 			if _, ok := r.(abortPanic); ok {
 				return
 			}
+			if !t.User {
+				// a goroutine started by the library died: a real process
+				// would crash here; the run is ended and the harness reports it
+				s.goPanic(fmt.Sprint(r))
+				return
+			}
 			panic(r)
 		}
 	}()
 	if !s.isAborting() {
 		t.setStarted()
 		t.fn()
+	}
+}
+
+//go:norace
+func (s *Sim) goPanic(msg string) {
+	if !s.aborting {
+		s.aborting = true
+		s.AbortWhy = "goroutine-panic"
+		s.GoPanic = msg
 	}
 }
 
